@@ -925,3 +925,144 @@ Qed.
 (* contents: the used slots *)
 Lemma contents_spec t e : In e (contents t) <-> In e t /\ fst e <> 0.
 Proof. unfold contents. rewrite filter_In. split; intros [H1 H2]; split; auto; lia. Qed.
+
+(* ------------------------------------------------------------------ the probe sequence visits every slot
+   (the step is odd and the table size a power of two), so insertion succeeds while a slot is unused *)
+
+Lemma odd_mul_mod_pow2 : forall k d s,
+  s mod 2 = 1 -> d < 2 ^ k -> (d * s) mod 2 ^ k = 0 -> d = 0.
+Proof.
+  induction k as [|k IH] using N.peano_ind; intros d s Hs Hd Hm.
+  - change (2 ^ 0) with 1 in Hd. lia.
+  - rewrite N.pow_succ_r' in *.
+    pose proof (pow_pos_N k) as Hp. set (P := 2 ^ k) in *.
+    assert (Hev : d mod 2 = 0).
+    { destruct (N.eq_dec (d mod 2) 0) as [E|E]; [exact E|exfalso].
+      assert (Hd1 : d mod 2 = 1) by (pose proof (N.mod_lt d 2); lia).
+      pose proof (N.div_mod d 2 ltac:(lia)) as Ed. pose proof (N.div_mod s 2 ltac:(lia)) as Es.
+      pose proof (N.div_mod (d * s) (2 * P) ltac:(lia)) as Ep. rewrite Hm in Ep.
+      rewrite Hd1 in Ed. rewrite Hs in Es.
+      set (a := d / 2) in *. set (b := s / 2) in *. set (q := d * s / (2 * P)) in *.
+      assert (d * s = 2 * (2 * a * b + a + b) + 1) by (rewrite Ed, Es; ring). nia. }
+    pose proof (N.div_mod d 2 ltac:(lia)) as Ed. rewrite Hev, N.add_0_r in Ed.
+    set (d' := d / 2) in *.
+    assert (Hm' : (d' * s) mod P = 0).
+    { rewrite Ed, <- N.mul_assoc, N.mul_mod_distr_l in Hm by lia. lia. }
+    assert (d' = 0) by (apply (IH d' s Hs); [lia|exact Hm']). lia.
+Qed.
+
+Lemma add_mod_cancel x y m : m <> 0 -> (x + y) mod m = x mod m -> y mod m = 0.
+Proof.
+  intros Hm H.
+  pose proof (N.div_mod (x + y) m Hm) as E1. pose proof (N.div_mod x m Hm) as E2.
+  pose proof (N.div_mod y m Hm) as E3. pose proof (N.mod_lt y m Hm) as L3. pose proof (N.mod_lt x m Hm) as L2.
+  rewrite H in E1.
+  set (q1 := (x + y) / m) in *. set (q2 := x / m) in *. set (q3 := y / m) in *.
+  set (r := x mod m) in *. set (r3 := y mod m) in *.
+  assert (Hr : m * q1 = m * q2 + m * q3 + r3) by lia.
+  destruct (N.eq_dec r3 0) as [E|E]; [exact E|exfalso].
+  assert (Hq : m * (q1 - q2 - q3) = r3) by nia.
+  assert (q1 - q2 - q3 = 0 \/ 1 <= q1 - q2 - q3) by lia. nia.
+Qed.
+
+Lemma probe_step_odd slots id : probe_step slots id mod 2 = 1.
+Proof. unfold probe_step. apply lor_1_odd. Qed.
+
+Lemma probe_inj k id i j : i < j -> j < 2 ^ k -> probe (2 ^ k) id i <> probe (2 ^ k) id j.
+Proof.
+  intros Hij Hj Heq. unfold probe in Heq.
+  assert (Hnz : 2 ^ k <> 0) by (apply N.pow_nonzero; discriminate).
+  set (a := id mod 2 ^ k) in *. set (s := probe_step (2 ^ k) id) in *.
+  replace (a + j * s) with ((a + i * s) + (j - i) * s) in Heq by nia.
+  symmetry in Heq. apply add_mod_cancel in Heq; [|exact Hnz].
+  apply odd_mul_mod_pow2 in Heq; [lia|apply probe_step_odd|lia].
+Qed.
+
+Lemma NoDup_map_inj_on {A B} (f : A -> B) (l : list A) :
+  (forall x y, In x l -> In y l -> f x = f y -> x = y) -> NoDup l -> NoDup (map f l).
+Proof.
+  induction l as [|a l IH]; intros Hinj ND; [constructor|].
+  inversion ND as [|? ? Hnotin ND']; subst. cbn [map]. constructor.
+  - intros Hin. apply in_map_iff in Hin. destruct Hin as (x & Hfx & Hx).
+    assert (x = a) by (apply Hinj; [right; exact Hx|left; reflexivity|exact Hfx]). subst. contradiction.
+  - apply IH; [|exact ND']. intros x y Hx Hy. apply Hinj; right; assumption.
+Qed.
+
+(* every slot is probed within the first 2^k steps *)
+Lemma probe_surj k id s : s < 2 ^ k -> exists i, i < 2 ^ k /\ probe (2 ^ k) id i = s.
+Proof.
+  intros Hs.
+  assert (Hnz : 2 ^ k <> 0) by (apply N.pow_nonzero; discriminate).
+  set (m := N.to_nat (2 ^ k)).
+  set (f := fun i : nat => N.to_nat (probe (2 ^ k) id (N.of_nat i))).
+  assert (ND : NoDup (map f (seq 0 m))).
+  { apply NoDup_map_inj_on; [|apply seq_NoDup].
+    intros x y Hx Hy Hf. apply in_seq in Hx. apply in_seq in Hy. unfold f in Hf.
+    apply N2Nat.inj in Hf.
+    destruct (Nat.lt_trichotomy x y) as [H|[H|H]]; [|exact H|].
+    - exfalso. apply (probe_inj k id (N.of_nat x) (N.of_nat y)); [lia|unfold m in *; lia|exact Hf].
+    - exfalso. apply (probe_inj k id (N.of_nat y) (N.of_nat x)); [lia|unfold m in *; lia|symmetry; exact Hf]. }
+  assert (Hincl : incl (map f (seq 0 m)) (seq 0 m)).
+  { intros x Hx. apply in_map_iff in Hx. destruct Hx as (i & <- & Hi). apply in_seq. unfold f.
+    pose proof (probe_lt (2 ^ k) id (N.of_nat i) Hnz). unfold m. lia. }
+  assert (Hrev : incl (seq 0 m) (map f (seq 0 m))).
+  { apply NoDup_length_incl; [exact ND|rewrite map_length; lia|exact Hincl]. }
+  assert (Hin : In (N.to_nat s) (seq 0 m)) by (apply in_seq; unfold m; lia).
+  apply Hrev in Hin. apply in_map_iff in Hin. destruct Hin as (i & Hfi & Hi). apply in_seq in Hi.
+  exists (N.of_nat i). split; [unfold m in Hi; lia|]. unfold f in Hfi. apply N2Nat.inj in Hfi. exact Hfi.
+Qed.
+
+Lemma insert_at_succeeds slots t id row : forall fuel j0,
+  (forall s, s < slots -> exists x, slot_id t s = Some x) -> slots <> 0 ->
+  (exists i, j0 <= i /\ i < j0 + N.of_nat fuel /\ slot_id t (probe slots id i) = Some 0) ->
+  exists t', insert_at fuel slots t id row j0 = Some t'.
+Proof.
+  induction fuel as [|fuel IH]; intros j0 Hall Hnz (i & Hle & Hlt & Hz); [lia|].
+  cbn [insert_at]. destruct (Hall (probe slots id j0) (probe_lt _ _ _ Hnz)) as [x Hx]. rewrite Hx.
+  destruct (x =? 0) eqn:E; [eauto|].
+  apply IH; [exact Hall|exact Hnz|]. exists i. repeat split; try lia; [|exact Hz].
+  destruct (N.eq_dec i j0) as [->|]; [|lia]. rewrite Hx in Hz. inversion Hz. lia.
+Qed.
+
+(* any load factor can be reached: while a slot of a 2^k table is unused, insertion of any id succeeds *)
+Theorem insert_succeeds k t id row :
+  length t = N.to_nat (2 ^ k) -> (exists s, s < 2 ^ k /\ slot_id t s = Some 0) ->
+  exists t', insert (2 ^ k) t id row = Some t' /\ inserted (2 ^ k) t id row t'.
+Proof.
+  intros Hlen (s & Hs & Hz).
+  assert (Hnz : 2 ^ k <> 0) by (apply N.pow_nonzero; discriminate).
+  destruct (probe_surj k id s Hs) as (i & Hi & Hp).
+  assert (Hall : forall s0, s0 < 2 ^ k -> exists x, slot_id t s0 = Some x).
+  { intros s0 Hs0. unfold slot_id. destruct (nth_error t (N.to_nat s0)) as [[a b]|] eqn:E; [cbn; eauto|].
+    apply nth_error_None in E. lia. }
+  destruct (insert_at_succeeds (2 ^ k) t id row (N.to_nat (2 ^ k)) 0 Hall Hnz) as [t' Ht'].
+  { exists i. repeat split; [lia|lia|rewrite Hp; exact Hz]. }
+  exists t'. split; [exact Ht'|apply insert_inserted; exact Ht'].
+Qed.
+
+(* ------------------------------------------------------------------ initial length / word of an encoding *)
+
+Lemma read_initial_length_enc (fmt64 : bool) be len rest :
+  len < (if fmt64 then 2 ^ 64 else 4294967280) ->
+  read_initial_length be (enc_initial_length fmt64 be len ++ rest) = Ok ((len, fmt64), rest).
+Proof.
+  intros H. unfold read_initial_length, enc_initial_length. destruct fmt64.
+  - rewrite <- app_assoc. rewrite read_un_enc_small by (change (8 * N.of_nat 4) with 32; reflexivity).
+    cbn [bind]. change (4294967295 <? 4294967280) with false. change (4294967295 =? 4294967295) with true. cbv iota.
+    rewrite read_un_enc_small by (change (8 * N.of_nat 8) with 64; exact H). reflexivity.
+  - rewrite read_un_enc_small by (change (8 * N.of_nat 4) with 32; change (2 ^ 32) with 4294967296; lia).
+    cbn [bind]. destruct (len <? 4294967280) eqn:E; [reflexivity|lia].
+Qed.
+
+Lemma read_word_enc (fmt64 : bool) be v rest :
+  v < (if fmt64 then 2 ^ 64 else 2 ^ 32) ->
+  read_word fmt64 be (enc_word fmt64 be v ++ rest) = Ok (v, rest).
+Proof.
+  intros H. unfold read_word, enc_word. destruct fmt64.
+  - apply read_un_enc_small. exact H.
+  - apply read_un_enc_small. exact H.
+Qed.
+
+Lemma blen_repeat (x : byte) n : blen (repeat x n) = N.of_nat n.
+Proof. unfold blen. rewrite repeat_length. reflexivity. Qed.
+
